@@ -151,6 +151,9 @@ pub fn faultrun(args: &Args) -> i32 {
     let dir = PathBuf::from(args.s("dir", "/dev/shm/lsmv-faultrun/tree"));
     let markers = PathBuf::from(args.s("markers", "/dev/shm/lsmv-faultrun/markers"));
     let result = args.s("result", "");
+    // "reopening at any time afterwards": in this mode the tree is CLOSED right after the first failed call
+    // (dropping every handle, which is when files marked as deleted really go) and reopened in place, no retry
+    let close_after_failure = args.s("after-failure", "retry") == "close";
     hooks::install_panic_capture();
     hooks::install_version_queue();
     hooks::install_clock();
@@ -249,6 +252,38 @@ pub fn faultrun(args: &Args) -> i32 {
                     }
                     copy_dir(&dir, &copy);
                 }
+                if close_after_failure && inst.tree.is_some() {
+                    let want_before = durable(&before_model, &keys);
+                    let want_mid = durable(&inst.model, &keys);
+                    let want_after = {
+                        // what the call would have made durable had it succeeded
+                        let mut m = inst.model.clone();
+                        if matches!(op, Op::Flush { .. } | Op::Ingest { .. }) {
+                            m.rotate();
+                            m.flushed();
+                        }
+                        durable(&m, &keys)
+                    };
+                    let _ = std::fs::remove_dir_all(&copy);
+                    // close: every handle of ours goes, then the tree itself
+                    inst.iters.clear();
+                    inst.tree = None;
+                    let _ = hooks::drain_installs();
+                    match dump_copy(&c.cfg, &dir) {
+                        Err(e) => violation = Some(tag("closed-tree-unopenable", format!("the tree was closed right after the failed call and reopened: {e}"))),
+                        Ok(got) => {
+                            let ok = same(&got, &want_before) || same(&got, &want_mid) || same(&got, &want_after) || matches!(op, Op::Ingest { .. } | Op::Clear | Op::DropRange { .. });
+                            if !ok {
+                                violation = Some(tag(
+                                    "closed-tree-wrong-state",
+                                    format!("closing right after the failed call and reopening yields [{}], neither before [{}] nor after [{}]", show(&got), show(&want_before.0), show(&want_after.0)),
+                                ));
+                            }
+                        }
+                    }
+                    res.set("closed_after_failure", J::Bool(true));
+                    break 'ops;
+                }
                 // whatever the failed call left on disk is an orphan until the next reopen
                 if inst.tree.is_some() {
                     let hist = inst.tree().get_version_history_lock().verif_history();
@@ -341,7 +376,7 @@ pub fn faultrun(args: &Args) -> i32 {
         }
         mark(format!("M E {i}"));
     }
-    if violation.is_none() {
+    if violation.is_none() && !(close_after_failure && inst.tree.is_none()) {
         mark("M B 9999 final-reopen".into());
         if let Err(v) = inst.exec(9999, &Op::Reopen) {
             if !v.sig.starts_with("error:") {
